@@ -112,6 +112,14 @@ def check_call(contract: Contract, call: Callable[[], Any], ns_args: Dict[str, A
                 matched = xname
                 break
         if matched is None:
+            for xname, cond in getattr(contract, "raises_if", {}).items():
+                if exc_matches(raised, xname):
+                    ns.__dict__["exc"] = raised
+                    if not bool(cond(ns)):
+                        out.ok = False
+                        out.failed_clause = "raises#%s" % xname
+                        out.detail = "raised %s although its condition does not hold" % xname
+                    return out
             if any(exc_matches(raised, x) for x in contract.may_raise):
                 return out
             out.ok = False
@@ -123,7 +131,11 @@ def check_call(contract: Contract, call: Callable[[], Any], ns_args: Dict[str, A
             out.failed_clause = "raises#%s" % matched
             out.detail = "raised %s although its condition does not hold" % matched
         return out
-    out.observed = "returned %r" % (result,) if not isinstance(result, (list, dict)) or len(repr(result)) < 200 else "returned (large)"
+    try:
+        out.observed = "returned %r" % (result,) if not isinstance(result, (list, dict)) or len(repr(result)) < 200 else "returned (large)"
+    except Exception:  # e.g. CPython's int -> str digit limit inside a __repr__
+        out.observed = "returned <%s> (repr failed)" % type(result).__name__
+    out.observed = out.observed[:300]
     for xname, val in expected.items():
         if val:
             out.ok = False
